@@ -42,6 +42,11 @@ CLAIMS = {
         "Decides structural necessary conditions only: re-validation after every callback unless the state is already terminal, terminal-before-wake, extraction-is-last, clone-before-cell, revert-before-drop with a fresh read, release discipline, waker balance, cell typestate table. The tree of nested callback programs is not explored.",
         "Trusted: rustc nightly MIR, factgen extraction, the user-code classification, the cell/typestate tables in vf/props/c07.py restating core/state.rs and docs/callback-safety.md.",
         "DESIGN.md section 3, C07"),
+    "C17": (
+        "MIR rules: detection of lifetime-erasing transmutes (source = target after region erasure), exit analysis over both return and unwind edges (must-pass-through of a drain-guard Drop on every unwind path from a panicking call after the first cross-thread hand-off; returns only behind the collection loop's exhaustion), loop/dominance shape of the per-thread closure, backward slices for barrier size and group indexes",
+        "Decides structural necessary conditions only: the scope obligation created by the lifetime-erasing transmute (no return or unwind before all result channels are drained), the call-count shape of the per-thread closure, barrier/grouping provenance. The violation found on the pinned tree (panicking expect inside the collection/dispatch loops) was a genuine, reproduced use-after-return and is repaired by a fix: commit. Numeric iteration counts for all inputs are not decided.",
+        "Trusted: rustc nightly MIR incl. unwind edges and cleanup blocks, factgen extraction, the list of calls considered panicking (expect/unwrap/panic*/user Clone) in vf/props/c17.py.",
+        "DESIGN.md section 3, C17"),
     "C18": (
         "MIR rules: exactly-once forwarding on every path, argument/return identity by backward slice, who-may-call on the counters, dominance of register-before-publish",
         "Decides structural necessary conditions only: each GlobalAlloc method forwards exactly once with unchanged arguments and returns the inner result; (size,1) is recorded exactly once for alloc/alloc_zeroed/realloc and never for dealloc; counters are thread-local and registered before publication; spans subtract their start snapshot. It does not decide exactness over all allocation histories/interleavings.",
